@@ -359,10 +359,13 @@ fn cmp_sites(m: &Model, ctx: &mut Ctx, _ev: &Evaluator) {
             }
         };
         let ev = Evaluator { consts: &consts, call_hook: &hook, inline: None };
+        // the module's EXTENSIBILITY default makes a type extensible, it does not move the position of the first addition: both
+        // settings are evaluated, the expected marking is the same
+        for xenv in ["Explicit", "Implied"] {
         for ext in [None, Some(0usize), Some(1), Some(2), Some(3)] {
             for i in 0..4usize {
                 for (group, spelled) in if has_groups { vec![(false, "abc"), (true, "ext_group_abc"), (false, "ext-group-abc")] } else { vec![(false, "abc")] } {
-                    let key = format!("{}: i={} first_ext={:?} name={}", fname, i, ext, spelled);
+                    let key = format!("{}: i={} first_ext={:?} name={}{}", fname, i, ext, spelled, if xenv == "Implied" { " EXTENSIBILITY IMPLIED" } else { "" });
                     ctx.oblige("C05.cmp", &key, true);
                     let mut n = BTreeMap::new();
                     n.insert("name".to_string(), Val::Str(spelled.into()));
@@ -374,7 +377,7 @@ fn cmp_sites(m: &Model, ctx: &mut Ctx, _ev: &Evaluator) {
                     cv.insert(list.to_string(), Val::List(vec![member.clone(); 4]));
                     let mut env = Env::new();
                     env.insert(container.clone(), Val::Ctor("container".into(), vec![], cv));
-                    env.insert("self".into(), Val::ctor("Rasn"));
+                    env.insert("self".into(), Val::Ctor("Rasn".into(), vec![], [("extensibility_environment".to_string(), Val::ctor(xenv)), ("tagging_environment".to_string(), Val::ctor("Automatic"))].into_iter().collect()));
                     for p in params.iter().skip(1) {
                         env.insert(p.clone(), Val::Str("Parent".into()));
                     }
@@ -406,7 +409,7 @@ fn cmp_sites(m: &Model, ctx: &mut Ctx, _ev: &Evaluator) {
                             };
                             if got != want {
                                 let rel = match ext { None => "no-marker".to_string(), Some(e) => (if i < e { "i<ext" } else if i == e { "i=ext" } else { "i>ext" }).to_string() };
-                                ctx.violate("C05.cmp", &format!("{}:{}:group={}", fname, rel, group), &f.file, span_line(clo),
+                                ctx.violate("C05.cmp", &format!("{}:{}:group={}{}", fname, rel, group, if xenv == "Implied" { ":implied" } else { "" }), &f.file, span_line(clo),
                                     &format!("[{}] annotation `{}`, expected `{}`: the components after the marker, and only those, are extension additions", key, got, want));
                             }
                         }
@@ -415,6 +418,7 @@ fn cmp_sites(m: &Model, ctx: &mut Ctx, _ev: &Evaluator) {
                     }
                 }
             }
+        }
         }
     }
     ctx.floor("C05.cmp/sites", sites, 3);
